@@ -15,14 +15,14 @@ func vCrashImage(pre []byte, log []vWriteRec, r int, k int) []byte {
 	img := append([]byte{}, pre...)
 	apply := func(w vWriteRec) {
 		if w.trunc >= 0 {
-			for len(img) < w.trunc {
-				img = append(img, 0)
+			if len(img) < w.trunc {
+				img = append(img, make([]byte, w.trunc-len(img))...)
 			}
 			img = img[:w.trunc]
 			return
 		}
-		for len(img) < w.off+len(w.data) {
-			img = append(img, 0)
+		if len(img) < w.off+len(w.data) {
+			img = append(img, make([]byte, w.off+len(w.data)-len(img))...)
 		}
 		copy(img[w.off:], w.data)
 	}
@@ -76,7 +76,19 @@ func VerifH_C06_StorageCrash() {
 	}
 	var spans []vPutSpan
 	for i := 0; i < nput; i++ {
-		b := vValidBlockT("blk", 1)
+		var b vEntry
+		if i == 0 && vTier() == 1 && vChoose("bigBlock", 2) == 1 {
+			// a payload longer than 255 bytes, so that DataSize needs more than one byte
+			c := vCidT("big")
+			vAssume(!vIsIdentity(c))
+			big := make([]byte, 260)
+			big[0] = vU8("bigFirst")
+			vAssume(vValidBlock(c, big))
+			b = vEntry{c, big}
+			vCover("big-block", true)
+		} else {
+			b = vValidBlockT("blk", 1)
+		}
 		first := len(f.log)
 		vAssert("put-ok", sc.Put(ctx, b.c.KeyString(), b.data) == nil)
 		spans = append(spans, vPutSpan{b, first, len(f.log)})
@@ -112,22 +124,20 @@ func VerifH_C06_StorageCrash() {
 	}
 	payloadAll, offs := vExpectedPayload(roots, vStoredEntries(o, spanEntries(spans)))
 	_ = payloadAll
-	// regions of the known findings, stated over the crash position relative to the write log
-	started := func(s vPutSpan) bool { return r > s.first || (r == s.first && k > 0) }
-	tornPut := false
-	for _, s := range spans {
-		if started(s) && !acked(s) {
-			tornPut = true
-		}
-	}
-	hs := len(f.log) - 2 // record of the characteristics write; the 24-byte header write follows
+	// regions of the known findings, stated over the crash position relative to the write log.
+	// Each region is the set of crash positions for which the unchanged code really misbehaves
+	// (positions next to them, where it behaves, stay under the assertion).
+	tornPut := vTornPut(f.log, spans, r, k)
+	last := len(f.log) - 1 // the 24-byte offsets write of Finalize; the 16-byte characteristics precede it
 	v2fin := finalize && !o.v1
 	idxStarted := v2fin && (r > finStart || (r == finStart && k > 0))
-	hdrStarted := v2fin && (r > hs || (r == hs && k > 0))
-	hdrDone := r == len(f.log) || (r == len(f.log)-1 && f.log[r].trunc < 0 && k == len(f.log[r].data))
+	// the offsets only count once a non-zero DataSize is on disk (more than 8 bytes of the write)
+	hdrOffsetsStarted := v2fin && (r > last || (r == last && k > 8))
 	vRegion("torn-last-section", tornPut)
-	vRegion("index-without-header", idxStarted && !hdrStarted)
-	vRegion("torn-v2-header", hdrStarted && !hdrDone)
+	// index bytes on disk, header offsets still zero, and no zero padding between payload and index
+	vRegion("index-without-header", idxStarted && !hdrOffsetsStarted && o.indexPad == 0)
+	// DataOffset complete (8 bytes) and DataSize only partly written
+	vRegion("torn-v2-header", v2fin && r == last && k > 8 && k < 16)
 	if err != nil {
 		// refused: acknowledged sections must still be on disk, untouched
 		stored := vStoredEntries(o, spanEntries(spans))
@@ -258,20 +268,13 @@ func VerifH_C06_CrashDuringResume() {
 	acked := func(s vPutSpan) bool {
 		return s.end <= r || (s.end == r+1 && log[r].trunc < 0 && k == len(log[r].data))
 	}
-	started := func(s vPutSpan) bool { return r > s.first || (r == s.first && k > 0) }
-	tornPut := false
-	for _, s := range spans {
-		if started(s) && !acked(s) {
-			tornPut = true
-		}
-	}
-	hs := len(log) - 2
+	tornPut := vTornPut(log, spans, r, k)
+	last := len(log) - 1
 	idxStarted := finalize && (r > finStart || (r == finStart && k > 0))
-	hdrStarted := finalize && (r > hs || (r == hs && k > 0))
-	hdrDone := r == len(log) || (r == len(log)-1 && log[r].trunc < 0 && k == len(log[r].data))
+	hdrOffsetsStarted := finalize && (r > last || (r == last && k > 8))
 	vRegion("torn-last-section", tornPut)
-	vRegion("index-without-header", idxStarted && !hdrStarted)
-	vRegion("torn-v2-header", hdrStarted && !hdrDone)
+	vRegion("index-without-header", idxStarted && !hdrOffsetsStarted && o.indexPad == 0)
+	vRegion("torn-v2-header", finalize && r == last && k > 8 && k < 16)
 	inResume := r < resumeEnd-start
 	vCover("cut-inside-resume-writes", inResume && k > 0)
 
@@ -319,4 +322,67 @@ func VerifH_C06_CrashDuringResume() {
 		vAssert("final-inspect-accepts", ierr == nil)
 	}
 	vCover("continued", true)
+}
+
+// vTornPut: the crash position lies inside a Put after the section's length prefix and CID are
+// completely on disk but before its data is (a section whose CID is readable and whose data is
+// short); an empty-data section is complete once its CID is.
+func vTornPut(log []vWriteRec, spans []vPutSpan, r, k int) bool {
+	for _, s := range spans {
+		if s.end-s.first < 3 {
+			continue
+		}
+		cidRec, dataRec := s.first+1, s.first+2
+		cidDone := r > cidRec || (r == cidRec && k == len(log[cidRec].data))
+		dataDone := r > dataRec || (r == dataRec && k == len(log[dataRec].data))
+		if cidDone && !dataDone {
+			return true
+		}
+	}
+	return false
+}
+
+// VerifH_C06_TornHeaderBigPayload: a payload longer than 255 bytes (so that DataSize spans more
+// than one byte) and a crash anywhere inside the 24-byte offsets write of Finalize.
+func VerifH_C06_TornHeaderBigPayload() {
+	o := vSessOpts{codec: 0x0401}
+	o.indexPad = uint64(5 * vChoose("indexPad", 2))
+	roots := []cid.Cid{vCidID("root")}
+	ctx := context.Background()
+	f := newVFile()
+	sc, err := NewReadableWritable(f, roots, o.list()...)
+	vAssert("open", err == nil)
+	c := vCidT("big")
+	vAssume(!vIsIdentity(c))
+	big := make([]byte, 260)
+	big[0] = vU8("bigFirst")
+	vAssume(vValidBlock(c, big))
+	vAssert("put-ok", sc.Put(ctx, c.KeyString(), big) == nil)
+	vAssert("finalize-ok", sc.Finalize() == nil)
+	r := len(f.log) - 1
+	k := vInt("crashByte")
+	vAssume(k >= 0 && k <= len(f.log[r].data))
+	img := vCrashImage(nil, f.log, r, k)
+	vRegion("index-without-header", k <= 8 && o.indexPad == 0)
+	vRegion("torn-v2-header", k > 8 && k < 16)
+	g := &vFile{data: img, failAt: -1}
+	sc2, err := OpenReadableWritable(g, roots, o.list()...)
+	var fr bytes.Buffer
+	vWriteFrame(&fr, vEntry{c, big})
+	start := 51 + len(vHeaderFrame(roots))
+	if err != nil {
+		vAssert("refusal-keeps-acknowledged-bytes", len(g.data) >= start+fr.Len() && vBytesEq(g.data[start:start+fr.Len()], fr.Bytes()))
+		vCover("reopen-refused", true)
+		return
+	}
+	has, herr := sc2.Has(ctx, c.KeyString())
+	vAssert("acknowledged-present", herr == nil && has)
+	got, gerr := sc2.Get(ctx, c.KeyString())
+	vAssert("acknowledged-intact", gerr == nil && vBytesEq(got, big))
+	ii := sc2.Index().(*index.InsertionIndex)
+	ii.ForEachCid(func(x cid.Cid, _ uint64) error {
+		vAssert("only-put-blocks", x.Equals(c))
+		return nil
+	})
+	vCover("reopen-succeeded", true)
 }
